@@ -749,6 +749,28 @@ def r_attribution(ctx):
         ctx.ok(inst, f.loc(disc[0].ast), '')
     else:
         ctx.violation('TCPTransport._onIncomingMessageReceived:unknown-peer-kept', f.loc(), 'an unknown peer is never disconnected', instance=inst)
+    # ... and only an unknown peer: a member whose first message was recognised always gets its new connection registered (the old
+    # one may be half-open: the acceptor cannot tell, so it must not prefer it)
+    keyvars = set()
+    for n in cfg.nodes:
+        if n.kind == 'stmt' and isinstance(n.ast, ast.Assign) and isinstance(n.ast.targets[0], ast.Subscript) and P.self_attr(n.ast.targets[0].value, f.self_name) \
+                and isinstance(n.ast.targets[0].slice, ast.Name) and isinstance(n.ast.value, ast.Name) and n.ast.value.id == f.params[1]:
+            keyvars.add(n.ast.targets[0].slice.id)
+    for n in disc:
+        if not res.reached(n.id) or not keyvars:
+            continue
+        inst = 'an incoming connection is refused only for an unknown peer'
+        ctx.tick()
+        bad = None
+        for fs in res.facts_at(n.id):
+            if not any(oracle.entails(fs, ('none', ex.tb.term(ast.Name(id=k, ctx=ast.Load())), True)) for k in keyvars):
+                bad = fs
+        if bad is None:
+            ctx.ok(inst, f.loc(n.ast), 'the looked-up node is None on every path to the disconnect')
+        else:
+            ctx.violation('TCPTransport._onIncomingMessageReceived:known-peer-refused', f.loc(n.ast),
+                          'the new connection of a recognised member can be closed instead of being registered: if the old connection is half-open (the peer crashed or was cut off '
+                          'without a FIN) the pair never gets a working connection again: %s' % res.path_str(n.id, bad), instance=inst)
     # outgoing side: callback bound with the node the connection was created for
     add = T.methods['addNode']
     inst = 'outgoing connection delivers as the node it was created for'
@@ -1007,7 +1029,46 @@ def r_silent_timeout(ctx):
         ctx.ok(inst, checker.loc(), '')
     else:
         ctx.violation('TcpConnection:no-timeout-check-on-events', checker.loc(), 'the poll event handler does not evaluate the read timeout', instance=inst)
-    # the timestamp is refreshed by reads only
+    # every read event refreshes the stamp, whether or not a whole frame has arrived: some function between the event handler
+    # and the socket read assigns it on every normal path that follows its step towards the read
+    stamp = None
+    for n in ast.walk(checker.node):
+        if isinstance(n, ast.Compare) and isinstance(n.left, ast.BinOp) and isinstance(n.left.op, ast.Sub) and any(U.is_clock_call(x) for x in ast.walk(n.left)):
+            stamp = P.self_attr(n.left.right, checker.self_name) or stamp
+    recvs = [m for m in P.methods_of(C) if any(isinstance(c.func, ast.Attribute) and c.func.attr == 'recv' for c in P.calls_in(m))]
+    if stamp and recvs and handlers:
+        inst = 'every read event refreshes the silence stamp'
+        ctx.tick()
+        recv_f = recvs[0]
+        okr = False
+        for g in P.methods_of(C):
+            if g.name in ('__init__', 'connect') or recv_f not in P.reachable_funcs([g], follow_field=False):
+                continue
+            if not any(g in P.reachable_funcs([hm], follow_field=False) or g is hm for hm in handlers):
+                continue
+            gcfg = U.explorer(ctx, g).cfg
+            sets = [U.node_containing(gcfg, st).id for st, k in U.assigns_to_attr(P, g, stamp) if U.is_clock_call(st.value)]
+            if not sets:
+                continue
+            steps = []
+            for c in P.calls_in(g):
+                if g is recv_f and isinstance(c.func, ast.Attribute) and c.func.attr == 'recv':
+                    steps.append(c)
+                else:
+                    r = P.resolve_call(g, c)
+                    if any(t is recv_f or recv_f in P.reachable_funcs([t], follow_field=False) for t in r.targets):
+                        steps.append(c)
+            for c in steps:
+                for cn in U.nodes_containing(gcfg, c):
+                    succ = [d for d, l in cn.succ if not (isinstance(l, tuple) and l[0] == 'exc')]
+                    if succ and all(gcfg.exit.id not in gcfg.reachable_from(d, avoid=sets + [cn.id], follow_exc=False) for d in succ if d not in sets):
+                        okr = True
+        if okr:
+            ctx.ok(inst, checker.loc(), 'self.%s is set from the clock after every step towards the socket read' % stamp)
+        else:
+            ctx.violation('TcpConnection:silence-stamp-not-refreshed-by-reads', checker.loc(),
+                          'no function between the poll handler and the socket read sets self.%s on every path after reading: bytes that arrive without completing a frame do not '
+                          'count as a sign of life, and a peer sending one long frame over a slow link is cut off again and again' % stamp, instance=inst)
     ctx.expect_min(2)
 
 
